@@ -173,6 +173,11 @@ def decl_module(d, ops_wanted):
             arms.append('"from_str" => guard(|| { let s = <String as Arg>::parse(arg); let p = <Inner as FromStr>::from_str(s.as_str()); let o = match &p { Ok(x) => x.show(), Err(_) => "none".to_string() }; let c = match p { Ok(raw) => { %s }, Err(_) => "-".to_string() }; format!("{} ## {} ## {}", %s, o, c) }),' % (ctor, m))
     if "Default" in info.traits and info.has_default:
         arms.append('"default" => guard(|| ok(TT::default().into_inner())),')
+    if info.has_validation and not info.custom:
+        parts = ", ".join('format!("%s={}", %sError::%s)' % (VARIANTS[k], T, VARIANTS[k]) for k in info.vkinds)
+        arms.append('"msgs" => guard(|| { let v: Vec<String> = vec![%s]; v.join(" | ") }),' % parts)
+    if "FromStr" in info.traits and info.has_validation:
+        arms.append('"from_str_msg" => guard(|| { let s = <String as Arg>::parse(arg); match TT::from_str(s.as_str()) { Ok(_) => "ok".to_string(), Err(e) => e.to_string() } }),')
     mk = "TT::try_new(%s).ok()" if info.has_validation else "Some(TT::new(%s))"
     # ---- comparison traits on pairs (C12, C13)
     cmpf = []
